@@ -13,7 +13,7 @@ pub struct Finding {
 }
 
 pub fn path() -> String {
-    format!("{}/known_findings.txt", crate::engine::VERIF_ROOT)
+    format!("{}/known_findings.txt", crate::engine::verif_root())
 }
 
 /// the file is read once per process (it is never written at run time)
